@@ -272,4 +272,72 @@ func c11Locks(w *core.Worker, r *core.Rng, i int) {
 		w.Case(digest+"live"+st, res.Code == 8)
 	}
 	_ = baseSnap
+	// (4) racing acquisitions: A is held up at one step of its lock acquisition while B, started 150 ms later, is held up at one of its own
+	// (the oracle does not depend on the timing: whatever the two did, nothing may be left once both have ended)
+	type racer struct{ role, stmt, point string }
+	var racers []racer
+	for _, pt := range []string{"lock.checked", "lock.created", "lock.rechecked", "temp.created", "hold.x.begin"} {
+		racers = append(racers, racer{"writer", "UPDATE f1 SET c1 = 'w' WHERE id = 1;", pt})
+	}
+	for _, pt := range []string{"rlock.checked", "rlock.lock_created", "rlock.rlock_created", "rlock.lock_released", "hold.s.begin"} {
+		racers = append(racers, racer{"reader", "SELECT COUNT(*) FROM f1;", pt})
+	}
+	type pair struct{ a, b racer }
+	var pairs []pair
+	k := 0
+	for _, a := range racers {
+		for _, b := range racers {
+			if k%6 == (i/4)%6 {
+				pairs = append(pairs, pair{a, b})
+			}
+			k++
+		}
+	}
+	sem := make(chan struct{}, 4)
+	type outcome struct {
+		pr     pair
+		ra, rb core.ProcResult
+		left   []string
+	}
+	outs := make(chan outcome, len(pairs))
+	for n, pr := range pairs {
+		d := filepath.Join(w.Work, fmt.Sprintf("race%d", n))
+		_ = os.RemoveAll(d)
+		copyDir(base, d)
+		go func(pr pair, d string) {
+			sem <- struct{}{}
+			defer func() { <-sem }()
+			ca := make(chan core.ProcResult, 1)
+			go func() {
+				ca <- core.RunProc(core.ProcOpts{Dir: d, Args: csvqArgs("-q", "--wait-timeout", "4", pr.a.stmt), Env: []string{"VERIF_DELAY=" + pr.a.point + "=400"}, Timeout: 60 * time.Second})
+			}()
+			time.Sleep(150 * time.Millisecond)
+			rb := core.RunProc(core.ProcOpts{Dir: d, Args: csvqArgs("-q", "--wait-timeout", "4", pr.b.stmt), Env: []string{"VERIF_DELAY=" + pr.b.point + "=600"}, Timeout: 60 * time.Second})
+			ra := <-ca
+			var left []string
+			for _, nm := range core.TakeSnap(d).Names() {
+				if core.IsControlFile(nm) {
+					left = append(left, nm)
+				}
+			}
+			_ = os.RemoveAll(d)
+			outs <- outcome{pr, ra, rb, left}
+		}(pr, d)
+	}
+	for range pairs {
+		o := <-outs
+		desc := fmt.Sprintf("%s held at %s against %s held at %s", o.pr.a.role, o.pr.a.point, o.pr.b.role, o.pr.b.point)
+		if len(o.left) > 0 {
+			w.Violation("leftover-control-file@racing-acquisition", fmt.Sprintf("%s (exits %d and %d): after both ended the repository holds %v", desc, o.ra.Code, o.rb.Code, o.left),
+				txReplay{Files: small(p.Files), Program: o.pr.a.stmt + " || " + o.pr.b.stmt, Env: []string{"VERIF_DELAY=" + o.pr.a.point + "=400", "VERIF_DELAY=" + o.pr.b.point + "=600"}, Variant: "racing acquisition"})
+		}
+		for _, rr := range []core.ProcResult{o.ra, o.rb} {
+			if rr.Code != 0 && rr.Code != 8 {
+				w.Violation("racing-acquisition-fails", fmt.Sprintf("%s: a process ended with exit %d: %s", desc, rr.Code, truncateStr(rr.Stderr, 200)), txReplay{Files: small(p.Files), Program: o.pr.a.stmt + " || " + o.pr.b.stmt, Variant: "racing acquisition"})
+			}
+		}
+		w.Note("racing_pairs", o.pr.a.role+"@"+o.pr.a.point+"|"+o.pr.b.role+"@"+o.pr.b.point)
+		w.Count("racing_acquisitions_run", 1)
+		w.Case(digest+"race"+desc, o.ra.Code == 0 || o.rb.Code == 0)
+	}
 }
